@@ -118,3 +118,14 @@ func vX509NotBefore(der []byte) int64
 func vX509NotAfter(der []byte) int64
 func vX509ParseCalls() int
 func vB64Dec(s string) string
+
+func vURL(name string, withParam bool) string
+func vURLBase(u string) string
+func vURLTenant(u string) string
+func vURLHasTenant(u string) bool
+func vQEsc(s string) string
+func vQueryString(name string) string
+func vDeflated(s string) string
+func vBytesOf(s string) []byte
+func vSignatureOf(url string) string
+func vSigVerifies(signatureB64, content string, key *rsa.PrivateKey, hash crypto.Hash) bool
